@@ -35,7 +35,7 @@ N_IR = ['Impulse Response Fresnel']
 FN = {'torch': 'odak.learn.wave.propagate_beam', 'numpy': 'odak.wave.propagate_beam'}
 LENS_FN = {'torch': 'odak.learn.wave.quadratic_phase_function', 'numpy': 'odak.wave.quadratic_phase_function'}
 # tolerances (discretisation error inside the validity window; observed values are 3 to 10 times smaller)
-TOL_L2, TOL_AMP, TOL_W, TOL_BETA, TOL_OVERLAP, TOL_PAIR = 0.05, 0.05, 0.03, 0.10, 0.03, 0.08
+TOL_L2, TOL_AMP, TOL_W, TOL_BETA, TOL_OVERLAP, TOL_PAIR, TOL_CONTRAST = 0.05, 0.05, 0.04, 0.10, 0.03, 0.08, 0.35
 MIN_CONTRAST = 100.0
 
 
@@ -124,12 +124,13 @@ def oracle_gauss(inp):
     core = R2 <= 9 * w2
     wm = math.sqrt(2 * float((I * core * R2).sum() / (I * core).sum()))
     res.append(('width', abs(wm / math.sqrt(w2) - 1) <= TOL_W, 'w(z) = %.6g within %g' % (math.sqrt(w2), TOL_W), wm))
-    # wavefront curvature: least-squares fit of the phase (relative to the beam axis) to beta r^2 on the bright core
+    # wavefront curvature: weighted least-squares fit of the phase on the bright core to phi0 + beta r^2 (r from the beam axis)
     ic = np.unravel_index(np.argmax(I), I.shape)
     phs = np.angle(out * np.conj(out[ic]))
-    Mc = I >= 0.2 * I.max()
-    R2c = (X - X[ic]) ** 2 + (Y - Y[ic]) ** 2
-    best = float((I * Mc * phs * R2c).sum() / max(1e-300, (I * Mc * R2c ** 2).sum()))
+    Wt = I * (I >= 0.2 * I.max())
+    s0, s1, s2 = float(Wt.sum()), float((Wt * R2).sum()), float((Wt * R2 * R2).sum())
+    t0, t1 = float((Wt * phs).sum()), float((Wt * phs * R2).sum())
+    best = (s0 * t1 - s1 * t0) / max(1e-300, s0 * s2 - s1 * s1)
     res.append(('curvature_sign', (best > 0) == (z > 0) and best != 0, 'wavefront %s (beta %s 0)' % ('diverging' if z > 0 else 'converging', '>' if z > 0 else '<'), best))
     res.append(('curvature', abs(best / beta - 1) <= TOL_BETA, 'beta = k/2R = %.6g within %g' % (beta, TOL_BETA), best))
     # overlap with the conjugate beam (opposite curvature): 1 / sqrt(1 + (z/zR)^2)
@@ -205,7 +206,10 @@ def oracle_focus(inp):
         return [('finite_output', False, 'finite field', 'NaN/inf in output')]
     Ip, Im = np.abs(rp) ** 2, np.abs(rm) ** 2
     cp, cm = float(Ip.max() / Ip.sum()), float(Im.max() / Im.sum())
-    res = [('focus_at_plus_f', cp >= MIN_CONTRAST * cm, 'peak/total in the plane +f at least %g x that in the plane -f' % MIN_CONTRAST, {'plus_f': cp, 'minus_f': cm, 'ratio': cp / cm})]
+    need = MIN_CONTRAST
+    if ap['kind'] == 'gauss':                      # closed form: exactly 1 + 4 (zR/f)^2, which is below 100 for weakly focused beams
+        need = min(MIN_CONTRAST, 0.5 * predict(k, ap['w0'], 0.0, f)[3])
+    res = [('focus_at_plus_f', cp >= need * cm, 'peak/total in the plane +f at least %.4g x that in the plane -f' % need, {'plus_f': cp, 'minus_f': cm, 'ratio': cp / cm})]
     ic = np.unravel_index(np.argmax(Ip), Ip.shape)
     off = [ic[0] - shape[0] // 2, ic[1] - shape[1] // 2]
     tol = shift_tol(inp) + 0.75
@@ -213,9 +217,9 @@ def oracle_focus(inp):
     if ap['kind'] == 'gauss':
         _, _, _, contrast, spot2 = predict(k, ap['w0'], 0.0, f)
         ratio = float(Ip.max() / Im.max())
-        res.append(('gaussian_contrast', abs(ratio / contrast - 1) <= 0.35, 'I(+f)/I(-f) = 1 + 4 (zR/f)^2 = %.5g within 35%%' % contrast, ratio))
+        res.append(('gaussian_contrast', abs(ratio / contrast - 1) <= TOL_CONTRAST, 'I(+f)/I(-f) = 1 + 4 (zR/f)^2 = %.5g within %g' % (contrast, TOL_CONTRAST), ratio))
         gain = float(Ip.max() / (np.abs(u) ** 2).max())
-        res.append(('gaussian_gain', abs(gain / ((contrast - 1) / 4) - 1) <= 0.35, 'I(+f)/I(lens) = (zR/f)^2 = %.5g within 35%%' % ((contrast - 1) / 4), gain))
+        res.append(('gaussian_gain', abs(gain / ((contrast - 1) / 4) - 1) <= TOL_CONTRAST, 'I(+f)/I(lens) = (zR/f)^2 = %.5g within %g' % ((contrast - 1) / 4, TOL_CONTRAST), gain))
     return res
 
 
@@ -296,9 +300,10 @@ def focus_case(rng, shape, kind, boundary=None):
         if zc_lo > zc_hi: continue
         f = {'near': zc_lo, 'far': zc_hi}.get(boundary, rng.uniform(zc_lo, zc_hi))
         if kind == 'gauss':
-            t = rng.uniform(7.0, 9.5)                     # zR / f: predicted contrast 1 + 4 t^2 in [197, 362]
+            t = rng.uniform(3.5, 9.5)                     # zR / f: predicted contrast 1 + 4 t^2 in [50, 362]
             w0 = math.sqrt(t * f * lam / math.pi)
-            if w0 > n * dx / 5: continue
+            # aperture inside the grid, focal spot w0 / t resolved by the grid and paraxial
+            if w0 > n * dx / 5 or w0 / t < 2.5 * dx or w0 / t < 2.5 * lam: continue
             ap = {'kind': 'gauss', 'w0': w0}
         else:
             ap = {'kind': kind, 'a': rng.uniform(0.27, 0.34) * n * dx}
@@ -314,7 +319,7 @@ def gen_inputs(ctx, scale=1):
     bnds = [None, 'near', 'far', 'flat', 'curved', 'backward', 'pitch']
     i = 0
     # --- Gaussian beam through every method x both APIs, transform on the doubled grid (the torch default)
-    for rep in range(scale * (3 if ctx.thorough else 1)):
+    for rep in range(scale * (4 if ctx.thorough else 3)):
         for shape in sizes:
             b = bnds[i % len(bnds)]; i += 1
             g = gauss_case(rng, shape, b)
@@ -326,7 +331,7 @@ def gen_inputs(ctx, scale=1):
             out.append(('agree', dict(g, pad=True)))
     # --- transfer-function methods on the bare grid (even, odd, non-square), any distance the beam fits in
     for shape in [(64, 64), (63, 63), (97, 81), (128, 128), (101, 128)] + ([(255, 255), (160, 200)] if ctx.thorough else []):
-        for rep in range(scale * (2 if ctx.thorough else 1)):
+        for rep in range(scale * (3 if ctx.thorough else 2)):
             g = gauss_case(rng, shape, None, ir=False)
             for api in ('torch', 'numpy'):
                 for m in T_TF:
@@ -334,7 +339,7 @@ def gen_inputs(ctx, scale=1):
             out.append(('agree', dict(g, pad=False)))
     # --- the library's own lens x aperture
     j = 0
-    for rep in range(scale * (3 if ctx.thorough else 1)):
+    for rep in range(scale * (3 if ctx.thorough else 2)):
         for shape in sizes[:3] + ([(160, 160), (256, 256)] if ctx.thorough else []):
             for kind in ('gauss', 'circ', 'square'):
                 b = [None, 'near', 'far', 'negative', None][j % 5]; j += 1
@@ -386,8 +391,12 @@ def trace_and_tie(ctx):
         g2 = None
         ctx.obligation('translator:trace-c04', False, repr(e))
         for f in ('C04_TieB', 'C04_TieC'): ctx.obligation('tie:%s' % f, False, 'not attempted: traced definitions unavailable')
+    import time
+    def timed(j, label):
+        t = time.time(); j(); ctx.log('coq job %s: %.1fs' % (label, time.time() - t))
+    labels = ['Print Assumptions', 'GenWaveK + kernel ties + C04_TieA', 'GenWaveP + Wave_TieP', 'GenC04(P) + C04_TieB/C']
     with ThreadPoolExecutor(max_workers=len(jobs)) as ex:
-        for fu in [ex.submit(j) for j in jobs]: fu.result()
+        for fu in [ex.submit(timed, j, labels[i] if len(jobs) == 4 else str(i)) for i, j in enumerate(jobs)]: fu.result()
     return g, g2
 
 
